@@ -246,6 +246,14 @@ def _mentions_spec_fn(e):
             stack.extend(x.children())
     return False
 
+def _quiet_worker():
+    """solver workers report through the pool only: the C++ side of z3 occasionally prints internal diagnostics (e.g. 'ASSERTION VIOLATION ... theory_bv.cpp',
+    which the Python side turns into a Z3Exception that is handled as `unknown`); they must not end up in the check's output"""
+    try:
+        dn = os.open(os.devnull, os.O_WRONLY); os.dup2(dn, 1); os.dup2(dn, 2); os.close(dn)
+    except OSError:
+        pass
+
 def discharge(eng, obls, budget_ms=None, workers=None, refute=True, first_ms=2500, refute_ms=4000, refute_K=(2, 5, 9), verbose=False):
     """fills result/secs/backend/model(witness)/detail of every obligation; forked pool (z3 objects are inherited, results are plain dicts)"""
     if budget_ms is None: budget_ms = lambda ob: 10000
@@ -260,7 +268,7 @@ def discharge(eng, obls, budget_ms=None, workers=None, refute=True, first_ms=250
         results = [solve_one(i) for i in range(n)]
     else:
         ctx = mp.get_context("fork")
-        with ctx.Pool(workers) as pool:
+        with ctx.Pool(workers, initializer=_quiet_worker) as pool:
             results = list(pool.imap_unordered(solve_one, range(n), chunksize=1))
     for r in results:
         ob = obls[r["i"]]
@@ -306,6 +314,7 @@ def freeze(ob):
     return o
 
 def _group_child(conn, fn, args, budget_ms, workers):
+    _quiet_worker()
     try:
         eng, obls, info = fn(*args)
         discharge(eng, obls, budget_ms=budget_ms, workers=workers)
